@@ -176,7 +176,7 @@ fn bases(maxseg: usize) -> Vec<Base> {
     let mut out = vec![];
     for ns in 0..=2usize {
         for nn in 0..=2usize {
-            // per line: 0..=2 (thorough: 3) segments of kind 1 (1-field), 2 (4-field), 3 (5-field)
+            // per line: 0..=3 (thorough: 4) segments of kind 1 (1-field), 2 (4-field), 3 (5-field)
             let per = crate::spaces::n_seq_upto(3, maxseg);
             for nl in 1..=2usize {
                 for k in 0..per.pow(nl as u32) {
@@ -304,11 +304,11 @@ fn check_base(base: &Base) -> Option<Viol> {
 
 pub fn run(run: &mut Run) -> Finish {
     let tier = run.ctx.tier;
-    let bs = bases(tier.pick(2, 3));
+    let bs = bases(tier.pick(3, 4));
     let nb = bs.len() as u64;
     let fc = foreign_chars();
 
-    run.par_slice("single faults: every structural fault (arity 2/3/6/7, source/name index pushed out either way incl. 2^32 wrap, continuation on last digit, 14/15-digit field) at every site, and every foreign character at every offset, of every base (<= 2 lines x <= 2/3 segments, array sizes {0,1,2}^2)", 1, nb, |idx, l| {
+    run.par_slice("single faults: every structural fault (arity 2/3/6/7, source/name index pushed out either way incl. 2^32 wrap, continuation on last digit, 14/15-digit field) at every site, and every foreign character at every offset, of every base (<= 2 lines x <= 3/4 segments, array sizes {0,1,2}^2)", 1, nb, |idx, l| {
         let b = &bs[(idx & 0xffff_ffff) as usize];
         if let Some(v) = check_base(b) {
             l.violation_sub(idx, 0, v);
@@ -383,7 +383,7 @@ pub fn run(run: &mut Run) -> Finish {
 
     Finish {
         level: "fault_enumeration",
-        rule: "E1 fault enumeration on the real decoder. Bases: every well-formed document with <= 2 lines x <= 2 segments of 1/4/5 fields for all (sources, names) array sizes in {0,1,2}^2 (each base must decode and all its references resolve). Faults, each at every site where it applies: arity 2/3/6/7; source and name running index set to len, len+1, -1, -len-1, 2^32+valid, -2^32+valid, 2^33+valid, 2^62+valid, +-2^63+valid (13 digits, the longest legal value) (other segments keep their absolute values); continuation bit on the segment's last digit; a segment turned into a 4-/5-field one although the sources / names array is empty; a field re-encoded with 14 and 15 digits; every non-alphabet ASCII byte except , ; and fifteen multi-byte characters (incl. code points whose low byte is a base64 digit) inserted at every offset. Then every ordered pair of structural faults at different sites and structural x foreign pairs on the two-segment bases. Oracle: decode_slice returns Err. Distinct by construction; every faulty document is non-trivial; class = fault type(s).".into(),
+        rule: "E1 fault enumeration on the real decoder. Bases: every well-formed document with <= 2 lines x <= 3 (thorough 4) segments of 1/4/5 fields for all (sources, names) array sizes in {0,1,2}^2 (each base must decode and all its references resolve). Faults, each at every site where it applies: arity 2/3/6/7; source and name running index set to len, len+1, -1, -len-1, 2^32+valid, -2^32+valid, 2^33+valid, 2^62+valid, +-2^63+valid (13 digits, the longest legal value) (other segments keep their absolute values); continuation bit on the segment's last digit; a segment turned into a 4-/5-field one although the sources / names array is empty; a field re-encoded with 14 and 15 digits; every non-alphabet ASCII byte except , ; and fifteen multi-byte characters (incl. code points whose low byte is a base64 digit) inserted at every offset. Then every ordered pair of structural faults at different sites and structural x foreign pairs on the two-segment bases. Oracle: decode_slice returns Err. Distinct by construction; every faulty document is non-trivial; class = fault type(s).".into(),
         assumptions: vec!["JSON escaping of inserted characters is done by serde_json, so the decoder sees the raw character in the mappings string".into()],
         coverage_extra: json!({"bases": nb, "two_segment_bases": n2, "foreign_characters": fc.len()}),
     }
